@@ -482,6 +482,29 @@ Proof.
   unfold qn in E2. apply (proj1 (inject_Z_injective _ _)) in E2. lia.
 Qed.
 
+(* ------------------------------------------------------------------ spectrum_fourier, complex data *)
+Theorem fourier_complex_wrong Fs m : ~ Fs == 0 -> (1 <= m)%nat ->
+  ~ leq (fourier_complex_freqs Fs (m + 1)) (true_shifted_bins Fs (m + 1)).
+Proof.
+  intros HF Hm H. unfold fourier_complex_freqs, true_shifted_bins in H.
+  rewrite linspace_closed in H by lia.
+  pose proof (leq_map_seq_inv _ _ _ _ H m ltac:(lia)) as E. cbv beta in E.
+  assert (NZm : ~ qn m == 0) by (apply qn_nonzero; lia).
+  assert (NZ1 : ~ qn (m + 1) == 0) by (apply qn_nonzero; lia).
+  assert (E2 : Fs * qn (m + 1) == Fs * (2 * (qn m - qn ((m + 1) / 2)))).
+  { setoid_replace (Fs * qn (m + 1))
+      with ((- (Fs / 2) + qn m * ((Fs / 2 - - (Fs / 2)) / qn m)) * (2 * qn (m + 1))) by (field; assumption).
+    rewrite E. field. assumption. }
+  apply (proj1 (Qmult_inj_l _ _ Fs HF)) in E2.
+  pose proof (Nat.div_mod (m + 1) 2 ltac:(lia)) as D.
+  pose proof (Nat.mod_upper_bound (m + 1) 2 ltac:(lia)) as B.
+  remember ((m + 1) / 2)%nat as h. remember ((m + 1) mod 2)%nat as r.
+  assert (E3 : qn (m + 1) + 2 * qn h == 2 * qn m) by (rewrite E2; ring).
+  unfold qn in E3. change 2 with (inject_Z 2) in E3.
+  rewrite <- !inject_Z_mult, <- inject_Z_plus in E3.
+  apply (proj1 (inject_Z_injective _ _)) in E3. lia.
+Qed.
+
 (* ------------------------------------------------------------------ Fs of a series *)
 Lemma factor_nonzero u : ~ inject_Z (factor u) == 0.
 Proof. destruct u; unfold Qeq; simpl; lia. Qed.
